@@ -314,6 +314,19 @@ func (oa *ordAnalysis) classifyCarried(fn *ssa.Function, h *ssa.BasicBlock, phi 
 		}
 		switch x := e.(type) {
 		case *ssa.Const:
+		case *ssa.Call:
+			// max / min reduction written with the builtins: x = max(x, l)
+			isRed := false
+			if n := calleeName(x); n == "builtin:max" || n == "builtin:min" {
+				for _, a := range x.Call.Args {
+					if a == ssa.Value(phi) {
+						isRed = true
+					}
+				}
+			}
+			if !isRed {
+				allConst = false
+			}
 		case *ssa.BinOp:
 			// counter: phi + const
 			if _, isC := x.Y.(*ssa.Const); !(x.X == ssa.Value(phi) && isC && (x.Op == token.ADD || x.Op == token.OR)) {
@@ -531,7 +544,7 @@ func cellSortedBefore(fn *ssa.Function, a *ssa.Alloc, load *ssa.UnOp) bool {
 					return
 				}
 				n := calleeName(x)
-				if n != "sort.Strings" && n != "sort.Slice" && n != "sort.SliceStable" && n != "option.Sort" && n != "sort.Ints" {
+				if n = calleeBase(x); !isTotalSort(n) {
 					return
 				}
 				arg := x.Call.Args[0]
@@ -598,6 +611,9 @@ var ordPureCalls = map[string]bool{
 	"builtin:append": true, "builtin:len": true, "builtin:cap": true, "strings.HasPrefix": true, "strings.HasSuffix": true, "strings.Contains": true,
 	"strings.TrimPrefix": true, "strings.SplitN": true, "strings.Split": true, "fmt.Sprintf": true, "strings.ToLower": true, "strings.Join": true,
 	"strings.ReplaceAll": true, "strings.Repeat": true, "strconv.Itoa": true, "builtin:delete": false,
+	"builtin:max": true, "builtin:min": true, "strings.Cut": true, "strings.CutPrefix": true, "strings.CutSuffix": true, "strings.TrimSuffix": true,
+	"strings.ContainsRune": true, "strings.EqualFold": true, "strings.Index": true, "strings.IndexByte": true, "strconv.FormatBool": true,
+	"unicode/utf8.RuneCountInString": true,
 }
 
 func (oa *ordAnalysis) checkCall(fn *ssa.Function, h *ssa.BasicBlock, c ssa.CallInstruction, vars []ssa.Value) string {
@@ -639,7 +655,7 @@ func (oa *ordAnalysis) checkCall(fn *ssa.Function, h *ssa.BasicBlock, c ssa.Call
 		}
 		return "output / interface call " + n + " inside an unordered loop"
 	}
-	if n == "sort.Strings" || n == "sort.Slice" {
+	if isTotalSort(calleeBase(c)) {
 		return ""
 	}
 	return "call of " + n + " inside an unordered loop is not known to be order-insensitive"
@@ -842,8 +858,8 @@ func sortedBefore(v ssa.Value, use ssa.Instruction) bool {
 		if !ok {
 			continue
 		}
-		n := calleeName(c)
-		if n != "sort.Strings" && n != "sort.Slice" && n != "sort.SliceStable" && n != "option.Sort" && n != "sort.Ints" {
+		n := calleeBase(c)
+		if !isTotalSort(n) {
 			continue
 		}
 		if c.Call.Args[0] != v {
@@ -906,7 +922,11 @@ func (oa *ordAnalysis) value(fn *ssa.Function, v ssa.Value, origin string) {
 			n := calleeName(x)
 			switch {
 			case n == "builtin:len" || n == "builtin:cap":
-			case n == "sort.Strings" || n == "sort.Slice" || n == "option.Sort" || n == "sort.SliceStable" || n == "sort.Ints":
+			case isTotalSort(calleeBase(x)):
+			case calleeBase(x) == "slices.Contains" || calleeBase(x) == "slices.Index":
+				// membership does not depend on the order
+			case calleeBase(x) == "slices.Clone" || calleeBase(x) == "slices.Concat":
+				oa.value(fn, x, origin)
 			case n == "builtin:append":
 				oa.value(fn, x, origin)
 			default:
